@@ -163,6 +163,9 @@ func decodable(t reflect.Type, v string) bool {
 	return json.Unmarshal([]byte(v), p.Interface()) == nil
 }
 
+// forms of the params member other than an array
+var c16ParamForms = []string{``, `,"params":null`, `,"params":{}`, `,"params":{"a":1}`, `,"params":"x"`, `,"params":7`, `,"params":true`}
+
 func c16Params() vh.Unit {
 	return vh.Unit{Name: "toy/arity-and-types", Run: func(u *vh.U) {
 		calls := map[string]int{}
@@ -269,6 +272,49 @@ func c16Params() vh.Unit {
 				}
 			}
 		}
+		// the params member itself: absent, null, or not an array
+		for name, types := range methods {
+			required := 0
+			for _, t := range types {
+				if t.Kind() != reflect.Ptr {
+					required++
+				}
+			}
+			for _, form := range c16ParamForms {
+				total := 0
+				for _, v := range calls {
+					total += v
+				}
+				text := fmt.Sprintf(`{"jsonrpc":"2.0","id":1,"method":%q%s}`, name, form)
+				msg, _ := vh.ParseMessage(text)
+				var resp *jsonrpc2.Message
+				if p := vh.Recover(func() { resp = srv.Handle(context.Background(), msg) }); p != "" {
+					u.Violate("toy/panic", fmt.Sprintf("%s: %s", text, p), nil)
+					continue
+				}
+				u.R.Evaluations++
+				u.R.States++
+				u.R.Transitions++
+				u.R.Traces++
+				code := 0
+				if resp != nil && resp.Response != nil && resp.Error != nil {
+					code = resp.Error.Code
+				}
+				total2 := 0
+				for _, v := range calls {
+					total2 += v
+				}
+				u.Observe(fmt.Sprintf("%s params-form %q %d ran=%d", name, form, code, total2-total))
+				if required == 0 {
+					continue // nothing is missing: observed, not judged
+				}
+				if total2 != total {
+					u.Violate("toy/method-ran-on-bad-params", fmt.Sprintf("%s: the method needs %d arguments, none were given, and it ran", text, required), nil)
+				} else if code != jsonrpc2.ErrCodeInvalidParams {
+					u.Violate("toy/bad-params-not-rejected", fmt.Sprintf("%s answered code %d, expected -32602", text, code), nil)
+				}
+			}
+		}
 		u.Sample(`{"method":"obj","params":[{"a":"x","b":2},["a"],1.5,true]} with every arity 0..5 and 9 JSON kinds per position`)
 	}}
 }
@@ -322,6 +368,36 @@ func c16Prod() vh.Unit {
 							u.Violate("prod/method-ran-on-bad-params", abbreviate(text), nil)
 						}
 					}
+				}
+			}
+		}
+		for _, m := range vh.ProdMethods {
+			if c15Arity[m] == 0 {
+				continue
+			}
+			for _, form := range c16ParamForms {
+				before := poolDigest(pw, cast)
+				text := fmt.Sprintf(`{"jsonrpc":"2.0","id":1,"method":%q%s}`, m, form)
+				msg, _ := vh.ParseMessage(text)
+				var resp *jsonrpc2.Message
+				if p := vh.Recover(func() { resp = srv.Handle(context.Background(), msg) }); p != "" {
+					u.Violate("prod/panic", fmt.Sprintf("%s: %s", text, p), nil)
+					continue
+				}
+				u.R.Evaluations++
+				u.R.States++
+				u.R.Transitions++
+				u.R.Traces++
+				code := 0
+				if resp != nil && resp.Response != nil && resp.Error != nil {
+					code = resp.Error.Code
+				}
+				u.Observe(fmt.Sprintf("%s params-form %q %d", m, form, code))
+				if code != jsonrpc2.ErrCodeInvalidParams {
+					u.Violate("prod/wrong-arity-not-rejected", fmt.Sprintf("%s (the method takes %d arguments) answered code %d", text, c15Arity[m], code), nil)
+				}
+				if poolDigest(pw, cast) != before {
+					u.Violate("prod/method-ran-on-bad-params", text, nil)
 				}
 			}
 		}
@@ -419,6 +495,26 @@ func c16Binary() vh.Unit {
 				u.R.Transitions++
 				if derr != nil || r.Code() != jsonrpc2.ErrCodeInvalidParams {
 					u.Violate("wire/wrong-arity-not-rejected", fmt.Sprintf("%s -> %s", req, body), nil)
+				}
+			}
+		}
+		for _, m := range vh.ProdMethods {
+			if c15Arity[m] == 0 {
+				continue
+			}
+			for _, form := range c16ParamForms {
+				req := fmt.Sprintf(`{"jsonrpc":"2.0","id":9,"method":%q%s}`, m, form)
+				_, body, _ := p.Post(req)
+				r, derr := vh.DecodeReply(body)
+				wsBody, werr := ws.Call(req, time.Minute)
+				rw, derr2 := vh.DecodeReply(wsBody)
+				u.R.Evaluations += 2
+				u.R.Transitions += 2
+				if derr != nil || r.Code() != jsonrpc2.ErrCodeInvalidParams {
+					u.Violate("wire/wrong-arity-not-rejected", fmt.Sprintf("%s -> %s", req, body), nil)
+				}
+				if werr != nil || derr2 != nil || rw.Code() != jsonrpc2.ErrCodeInvalidParams {
+					u.Violate("wire/wrong-arity-not-rejected", fmt.Sprintf("%s over WebSocket -> %s (%v)", req, wsBody, werr), nil)
 				}
 			}
 		}
